@@ -165,6 +165,24 @@ pub fn run(w: &Workload) -> Outcome7 {
             // keep every batch within its retry budget: the script must contain a terminal outcome
             outcomes.push(POut::Ok);
         }
+        // never ask for more than two consecutive retries of one batch (cyclically), so the workload stays
+        // inside any sensible retry budget and "within its retry budget" below is beyond doubt
+        {
+            let n = outcomes.len();
+            let mut run = 0;
+            for i in 0..2 * n {
+                let o = &mut outcomes[i % n];
+                if matches!(o, POut::RetrySame | POut::RetryTail) {
+                    run += 1;
+                    if run > 2 {
+                        *o = POut::Ok;
+                        run = 0;
+                    }
+                } else {
+                    run = 0;
+                }
+            }
+        }
         let mut expected: Option<Vec<u64>> = None;
         move |batch: Ch| -> Result<(), BatchError<Ch>> {
             let n = calls.fetch_add(1, Ordering::SeqCst);
